@@ -243,6 +243,32 @@ def resolve_clears(F):
                 if m == mode:
                     verdict = verdict or ("always", C)
         found.setdefault(res, []).append(modes_here)
+        # the resolver itself runs whenever its list is pending: between the per-instruction region and the call only
+        # conditions on its own list, on the delete_block state (block alt) or on the operator may stand
+        own = {"resolve_block_entry": "block_entry", "plan_resolution_block_exit": "block_exit",
+               "plan_resolution_semantic_after": "semantic_after", "plan_resolution_block_alt": "block_alt"}[res]
+        foreign = None
+        for c_ in conditional_ancestors(body, P) or []:
+            cd = c_.get("cond") if c_.get("k") == "If" else None
+            if cd is None:
+                continue
+            names_ = {x["res"].get("name") for x in walk(cd) if x.get("k") == "Path" and x.get("res", {}).get("r") == "local"} | \
+                     {x["name"] for x in walk(cd) if x.get("k") == "Field"} | {x["method"] for x in walk(cd) if x.get("k") == "MethodCall"}
+            others_ = {"block_entry", "block_exit", "semantic_after", "block_alt", "before", "after", "alternate"} - {own}
+            if own in names_ and (names_ & others_):
+                foreign = c_   # e.g. `!after.instrs.ends_with(&block_entry.instrs)`: the state of another list decides
+                continue
+            if own in names_ or "delete_block" in names_ or "has_instr" in names_ or "has_special_instr" in names_ or "num_local_functions" in names_ \
+                    or any(x.get("k") == "LetExpr" for x in walk(cd)) and (own in names_ or "instrumentation" in names_ or "kind" in names_ or "get_kind_mut" in names_ or "get_kind" in names_):
+                continue
+            if not (names_ & {"block_entry", "block_exit", "semantic_after", "block_alt", "before", "after", "alternate"}) and any(x.get("k") == "LetExpr" for x in walk(cd)):
+                continue
+            foreign = c_
+        okf = foreign is None
+        r.ob(okf, {"resolver": res, "runs_whenever_its_list_is_pending": okf})
+        if not okf:
+            r.violate("%s | %s extra guard" % (rs["path"], res), F.loc(rs, P),
+                      "%s is called only if an additional condition (line %s) holds, while its list is cleared regardless: a pending %s body can be discarded without being lowered" % (res, foreign["sp"][0], own))
         if verdict and verdict[0] == "on-result":
             tgt = F.by_path.get(P["callee"])
             why = _returns_true_from_every_working_arm(tgt[0]) if tgt else "planner body not found"
@@ -367,6 +393,27 @@ def special_flag(F):
                 r.violate("%s | %s returns" % (ai["path"], "+".join(sorted(modes))), F.loc(ai, arm),
                           "arm for %s returns %s on some path (expected %s): the owner would %s" % (sorted(modes), sorted(map(str, rets)), want, "never resolve it" if want == "Bool(true)" else "resolve needlessly"))
         break
+    # monotonic: the flag is only ever raised (`|= ..` or `= true`); recomputing or clearing it anywhere but after a
+    # completed resolution loses pending instruction-level special injections (has_instr() of the function flag only
+    # knows about entry/exit bodies)
+    n_w = 0
+    for fn in F.fns:
+        if fn.get("body") is None:
+            continue
+        for n in walk(fn["body"]):
+            if n.get("k") == "Assign" and (place_path(n["lhs"]) or "").endswith("has_special_instr"):
+                n_w += 1
+                ok_w = peel(n["rhs"]).get("lit") == "Bool(true)"
+                r.ob(ok_w, {"fn": fn["path"], "writes_flag": "= true" if ok_w else "= <computed>"})
+                if not ok_w:
+                    r.violate("%s | flag recomputed" % fn["path"], F.loc(fn, n), "has_special_instr is overwritten with a computed value: a pending special-mode injection recorded earlier (block entry/exit, semantic after, block alt) is forgotten and never lowered")
+            if n.get("k") == "AssignOp" and (place_path(n["lhs"]) or "").endswith("has_special_instr"):
+                n_w += 1
+                ok_w = n["op"].startswith("|")
+                r.ob(ok_w)
+                if not ok_w:
+                    r.violate("%s | flag op %s" % (fn["path"], n["op"]), F.loc(fn, n), "has_special_instr is combined with `%s`: the flag can be lowered" % n["op"])
+    r.count("flag_writes", n_w)
     fa = F.one_fn(name="add_instr", self_adt="FuncInstrFlag")
     sets = any(n.get("k") == "Assign" and (place_path(n["lhs"]) or "").endswith("has_special_instr") and n["rhs"].get("lit") == "Bool(true)" for n in walk(fa["body"]))
     r.analysed.append(fa["path"])
